@@ -419,7 +419,12 @@ class Oracle:
 READ_ONLY = ("get", "getall", "gbk", "count", "iske", "arek", "issw", "size", "hasval")
 
 
-def check_case(ops, impl, skip_lines=()):
+def check_case(ops, impl, skip_lines=(), stats=None):
+    stats = stats if stats is not None else {}
+    return _check_case(ops, impl, skip_lines, stats)
+
+
+def _check_case(ops, impl, skip_lines, stats):
     """ops/impl: the lines of one case (header first).  Returns the list of
     (index, op, expected, got) where the implementation's reply is not the reference's."""
     hdr = ops[0].split(" ")
@@ -429,6 +434,7 @@ def check_case(ops, impl, skip_lines=()):
             kind = a[5:]
     o = Oracle(kind)
     bad = []
+    stats["lines"] = stats.get("lines", 0) + max(0, min(len(ops), len(impl)) - 1)
     for i in range(1, min(len(ops), len(impl))):
         f = ops[i].split(" ")
         got = impl[i]
@@ -455,12 +461,17 @@ def check_case(ops, impl, skip_lines=()):
             continue
         exp, commit = o.expect(f)
         if exp is None:
+            stats["unknown"] = stats.get("unknown", 0) + 1
             o.forget(o.keys_of(f) if f[0] in ("set", "inc", "push", "u32del", "shift", "del") else [])
             o.learn(f, got)
             continue
+        stats["evaluated"] = stats.get("evaluated", 0) + 1
         if exp != got:
             bad.append((i, ops[i], exp, got))
-            o.forget(o.keys_of(f) or None)
+            if f[0] in READ_ONLY:
+                o.forget_existence()
+            else:
+                o.forget(o.keys_of(f) or None)
             o.learn(f, got)
             continue
         commit()
